@@ -1,8 +1,8 @@
 (* Properties_C07.v — property C07: try / catch / throw follow block structure.
    Only statements closed by `exact`, each followed by Print Assumptions.
-   mach = mrun exc_max_depth clear_active_on_catch: the machine (struct Exception + the C functions
-   of src/Exception.c + the expansion of the try/catch/throw macros) with both parameters re-read
-   from the working tree; ref_run d c = structured big-step semantics of the same program tree at
+   mach = mrun exc_max_depth clear_active_on_catch throw_records_obj_after_format try_keeps_obj: the
+   machine (struct Exception + the C functions of src/Exception.c + the expansion of the try/catch/
+   throw macros) with all four parameters re-read from the working tree; ref_run d c = structured big-step semantics of the same program tree at
    nesting level d, started with message c in the record (the message register is threaded because
    a throw with the empty format keeps the previous message); objects are identities, kind_of o is
    the eq-class exception_catch matches by. *)
@@ -33,8 +33,8 @@ Proof. exact ExnProofs.machine_refines_structured. Qed.
 Print Assumptions exn_machine_refines_structured.
 
 Example exn_machine_refines_structured_nonvacuous :
-  depth st_init + nesting (PTry (PSeq (PTry (PThrow 1 0) [10] (PTick 1)) (PTick 2)) [0] (PThrow 20 3)) <= exc_max_depth
-  /\ depth (MS None 0 [1; 0] true) + nesting (nest (exc_max_depth - 2) (PThrow 0 1)) <= exc_max_depth.
+  depth st_init + nesting (PTry (PSeq (PTry (PThrow 1 0 PSkip) [10] (PTick 1)) (PTick 2)) [0] (PThrow 20 3 PSkip)) <= exc_max_depth
+  /\ depth (MS None 0 [1; 0] true) + nesting (nest (exc_max_depth - 2) (PThrow 0 1 PSkip)) <= exc_max_depth.
 Proof. split; apply PeanoNat.Nat.leb_le; vm_compute; reflexivity. Qed.
 
 (* A whole program on a thread's fresh record: it ends normally at depth 0 exactly when the
@@ -49,8 +49,8 @@ Proof. exact ExnProofs.whole_program. Qed.
 Print Assumptions exn_whole_program.
 
 Example exn_whole_program_nonvacuous :
-  nesting (nest exc_max_depth (PThrow 0 1)) <= exc_max_depth
-  /\ snd (fst (ref_run 0 0 (PTry (PThrow 0 1) [10] PSkip))) = RRaised 0 1.
+  nesting (nest exc_max_depth (PThrow 0 1 PSkip)) <= exc_max_depth
+  /\ snd (fst (ref_run 0 0 (PTry (PThrow 0 1 PSkip) [10] PSkip))) = RRaised 0 1.
 Proof. split; [apply PeanoNat.Nat.leb_le; vm_compute; reflexivity | reflexivity]. Qed.
 
 (* A handled exception never fires again in an enclosing block: a try whose body ends normally
@@ -64,8 +64,8 @@ Proof. exact ExnProofs.handled_not_seen_outside. Qed.
 Print Assumptions exn_handled_not_seen_outside.
 
 Example exn_handled_not_seen_outside_nonvacuous :
-  depth st_init + S (nesting (PTry (PThrow 0 5) [0] (PTick 1))) <= exc_max_depth
-  /\ snd (fst (ref_run (S (depth st_init)) (msg st_init) (PTry (PThrow 0 5) [0] (PTick 1)))) = RNormal.
+  depth st_init + S (nesting (PTry (PThrow 0 5 PSkip) [0] (PTick 1))) <= exc_max_depth
+  /\ snd (fst (ref_run (S (depth st_init)) (msg st_init) (PTry (PThrow 0 5 PSkip) [0] (PTick 1)))) = RNormal.
 Proof. split; [apply PeanoNat.Nat.leb_le; vm_compute; reflexivity | reflexivity]. Qed.
 
 (* The structured semantics [ref_run] the theorems above compare with is the relation [eval]
@@ -88,8 +88,8 @@ Proof. exact ExnProofs.machine_follows_eval. Qed.
 Print Assumptions exn_machine_follows_eval.
 
 Example exn_machine_follows_eval_nonvacuous :
-  depth st_init + nesting (PTry (PTry (PThrow 2 5) [10] (PTick 1)) [0; 20] (PTick 2)) <= exc_max_depth /\
-  eval (depth st_init) (msg st_init) (PTry (PTry (PThrow 2 5) [10] (PTick 1)) [0; 20] (PTick 2)) [EHandler 2 5 0; ETick 2 0] RNormal 5.
+  depth st_init + nesting (PTry (PTry (PThrow 2 5 PSkip) [10] (PTick 1)) [0; 20] (PTick 2)) <= exc_max_depth /\
+  eval (depth st_init) (msg st_init) (PTry (PTry (PThrow 2 5 PSkip) [10] (PTick 1)) [0; 20] (PTick 2)) [EHandler 2 5 0; ETick 2 0] RNormal 5.
 Proof. split; [apply PeanoNat.Nat.leb_le; vm_compute; reflexivity | apply ExnProofs.eval_iff_ref_run; reflexivity]. Qed.
 
 (* "A handler runs if and only if an exception raised in its own try body was not already handled
@@ -107,8 +107,8 @@ Proof. exact ExnProofs.handler_runs_iff. Qed.
 Print Assumptions exn_handler_runs_iff.
 
 Example exn_handler_runs_iff_nonvacuous :
-  eval 0 4 (PTry (PThrow 11 0) [0; 10] (PTick 3)) [EHandler 11 4 0; ETick 3 0] RNormal 4 /\
-  eval 1 4 (PThrow 11 0) [] (RRaised 11 4) 4.
+  eval 0 4 (PTry (PThrow 11 0 PSkip) [0; 10] (PTick 3)) [EHandler 11 4 0; ETick 3 0] RNormal 4 /\
+  eval 1 4 (PThrow 11 0 PSkip) [] (RRaised 11 4) 4.
 Proof. split; apply ExnProofs.eval_iff_ref_run; reflexivity. Qed.
 
 (* "A non-matching exception continues to the nearest enclosing matching handler": p raises k inside
@@ -127,8 +127,8 @@ Proof. exact ExnProofs.machine_nearest_matching_handler. Qed.
 Print Assumptions exn_nearest_matching_handler.
 
 Example exn_nearest_matching_handler_nonvacuous :
-  depth st_init + nesting (chain ([([10], PTick 1); ([20; 31], PTick 2)] ++ [([1], PTick 3)]) (PThrow 0 9)) <= exc_max_depth /\
-  ref_run (S (length [([10], PTick 1); ([20; 31], PTick 2)] + depth st_init)) (msg st_init) (PThrow 0 9) = ([], RRaised 0 9, 9) /\
+  depth st_init + nesting (chain ([([10], PTick 1); ([20; 31], PTick 2)] ++ [([1], PTick 3)]) (PThrow 0 9 PSkip)) <= exc_max_depth /\
+  ref_run (S (length [([10], PTick 1); ([20; 31], PTick 2)] + depth st_init)) (msg st_init) (PThrow 0 9 PSkip) = ([], RRaised 0 9, 9) /\
   Forall (fun lv : list nat * prog => rejects (fst lv) 0) [([10], PTick 1); ([20; 31], PTick 2)].
 Proof.
   split; [apply PeanoNat.Nat.leb_le; vm_compute; reflexivity|]. split; [reflexivity|].
@@ -146,8 +146,8 @@ Proof. exact ExnProofs.machine_nobody_matches. Qed.
 Print Assumptions exn_nobody_matches_dies.
 
 Example exn_nobody_matches_dies_nonvacuous :
-  nesting (chain [([10], PTick 1); ([20; 31], PTick 2)] (PSeq (PTick 5) (PThrow 0 9))) <= exc_max_depth /\
-  ref_run (length [([10], PTick 1); ([20; 31], PTick 2)]) 0 (PSeq (PTick 5) (PThrow 0 9)) = ([ETick 5 2], RRaised 0 9, 9).
+  nesting (chain [([10], PTick 1); ([20; 31], PTick 2)] (PSeq (PTick 5) (PThrow 0 9 PSkip))) <= exc_max_depth /\
+  ref_run (length [([10], PTick 1); ([20; 31], PTick 2)]) 0 (PSeq (PTick 5) (PThrow 0 9 PSkip)) = ([ETick 5 2], RRaised 0 9, 9).
 Proof. split; [apply PeanoNat.Nat.leb_le; vm_compute; reflexivity | reflexivity]. Qed.
 
 (* "The object bound in the handler is the one that was thrown" — by IDENTITY: also when an object
@@ -156,7 +156,7 @@ Proof. split; [apply PeanoNat.Nat.leb_le; vm_compute; reflexivity | reflexivity]
    record's message as it is: set_msg). *)
 Theorem exn_bound_object_is_thrown_identity : forall o1 o2 m1 m2 fs,
   accepts fs o2 ->
-  fst (mach (PSeq (PTry (PThrow o1 m1) [] PSkip) (PTry (PThrow o2 m2) fs PSkip)) st_init)
+  fst (mach (PSeq (PTry (PThrow o1 m1 PSkip) [] PSkip) (PTry (PThrow o2 m2 PSkip) fs PSkip)) st_init)
   = ([EHandler o1 (set_msg m1 0) 0; EHandler o2 (set_msg m2 (set_msg m1 0)) 0], MNormal).
 Proof. exact ExnProofs.bound_object_is_thrown_identity. Qed.
 Print Assumptions exn_bound_object_is_thrown_identity.
@@ -174,15 +174,35 @@ Print Assumptions exn_overflow_aborts.
 (* D3: the pinned code (exception_catch never clears [active]) does not follow block structure. *)
 Theorem exn_unrepaired_refuted :
   exists p, nesting p <= exc_max_depth /\
-    fst (fst (mrun exc_max_depth false p st_init)) <> fst (fst (ref_run 0 0 p)).
+    fst (fst (mrun exc_max_depth false true true p st_init)) <> fst (fst (ref_run 0 0 p)).
 Proof. exact ExnProofs.unrepaired_refuted. Qed.
 Print Assumptions exn_unrepaired_refuted.
 
 Theorem exn_unrepaired_refuted_dies :
   exists p, nesting p <= exc_max_depth /\ snd (fst (ref_run 0 0 p)) = RNormal /\
-    snd (fst (mrun exc_max_depth false p st_init)) = MDied (Some 0) 5.
+    snd (fst (mrun exc_max_depth false true true p st_init)) = MDied (Some 0) 5.
 Proof. exact ExnProofs.unrepaired_refuted_dies. Qed.
 Print Assumptions exn_unrepaired_refuted_dies.
+
+(* Third repaired defect: a throw whose message arguments are shown by Show methods that run try/catch
+   blocks (PThrow o m f: f runs while the message is formatted).  The pinned exception_throw stored the
+   object before formatting: an exception thrown and handled inside f replaced it ... *)
+Theorem exn_obj_before_format_refuted :
+  nesting fmt_witness <= exc_max_depth /\
+  ref_run 0 0 fmt_witness = ([EHandler 10 7 1; EHandler 0 5 0; ETick 1 0], RNormal, 5) /\
+  fst (mrun exc_max_depth true false true fmt_witness st_init) = ([EHandler 10 7 1], MDied (Some 10) 5).
+Proof. exact ExnProofs.obj_before_format_refuted. Qed.
+Print Assumptions exn_obj_before_format_refuted.
+
+(* ... and, with that order, an exception_try that clears e->obj (seeded change) loses the object as
+   soon as f enters a try block; with the repaired order it does not matter (the theorems above hold
+   for mach whatever Generated.try_keeps_obj is: the refinement is proved for both values). *)
+Theorem exn_try_clearing_obj_refuted_for_old_order :
+  ref_run 0 0 fmt_witness_quiet = ([EHandler 0 5 0; ETick 1 0], RNormal, 5) /\
+  fst (mrun exc_max_depth true false false fmt_witness_quiet st_init) = ([], MNormal) /\
+  fst (mrun exc_max_depth true true false fmt_witness_quiet st_init) = ([EHandler 0 5 0; ETick 1 0], MNormal).
+Proof. exact ExnProofs.try_clearing_obj_refuted_for_old_order. Qed.
+Print Assumptions exn_try_clearing_obj_refuted_for_old_order.
 
 (* Second repaired defect: the pinned exception_catch walked the filter with foreach, whose cursor
    is the current element.  On filter SETS that walk decides exactly [matches] (so the repair changes
@@ -207,6 +227,18 @@ Theorem exn_repair_in_source : clear_active_on_catch = true.
 Proof. exact ExnProofs.clear_active_generated. Qed.
 Print Assumptions exn_repair_in_source.
 
+Theorem exn_obj_stored_after_format_in_source : throw_records_obj_after_format = true.
+Proof. exact ExnProofs.obj_after_format_generated. Qed.
+Print Assumptions exn_obj_stored_after_format_in_source.
+
+(* Every exception kind the library defines is a Type object named like its own variable, and no
+   two kinds share a name: kinds are pairwise distinct under eq (Type objects compare by name), so a
+   filter naming one kind never accepts another. *)
+Theorem exn_kinds_named_and_distinct :
+  Forall (fun p => fst p = snd p) exn_kind_defs /\ NoDup (map snd exn_kind_defs).
+Proof. exact (ExnProofs.kinds_ok_dec exn_kind_defs). Qed.
+Print Assumptions exn_kinds_named_and_distinct.
+
 Theorem exn_macro_shapes :
   Forall (fun p => fst p = snd p)
     [(exn_macro_try, expected_macro_try); (exn_macro_catch, expected_macro_catch);
@@ -221,10 +253,12 @@ Theorem exn_source_shapes :
     [(exn_src_try, expected_src_try); (exn_src_try_end, expected_src_try_end);
      (exn_src_try_fail, expected_src_try_fail); (exn_src_throw, expected_src_throw);
      (exn_src_catch, expected_src_catch); (exn_src_buffer, expected_src_buffer);
-     (exn_src_len, expected_src_len); (exn_src_error, expected_src_error)].
+     (exn_src_len, expected_src_len); (exn_src_error, expected_src_error);
+     (exn_src_signal, expected_src_signal)].
 Proof. exact (ExnProofs.strings_equal_dec
     [(exn_src_try, expected_src_try); (exn_src_try_end, expected_src_try_end);
      (exn_src_try_fail, expected_src_try_fail); (exn_src_throw, expected_src_throw);
      (exn_src_catch, expected_src_catch); (exn_src_buffer, expected_src_buffer);
-     (exn_src_len, expected_src_len); (exn_src_error, expected_src_error)]). Qed.
+     (exn_src_len, expected_src_len); (exn_src_error, expected_src_error);
+     (exn_src_signal, expected_src_signal)]). Qed.
 Print Assumptions exn_source_shapes.
